@@ -257,6 +257,70 @@ Proof.
     rewrite kabs_opp. reflexivity.
 Qed.
 
+(* ---- helper.mesh: zero at the origin sample (+ integer shift) for every rotation; odd under the half-turn ---- *)
+Theorem mesh_origin n m d0 d1 co si :
+  mesh_val n m (kofz d0) (kofz d1) co si (n / 2 + d0) (m / 2 + d1) = (@k0 S, @k0 S).
+Proof.
+  unfold mesh_val, rot_r, rot_c, mesh1. rewrite !(kofz_add S Hz). f_equal; ring.
+Qed.
+
+Theorem mesh_translate n m n' m' (sh0 sh1 co si : S) i j i' j' d0 d1 :
+  i' - n' / 2 = i - n / 2 + d0 -> j' - m' / 2 = j - m / 2 + d1 ->
+  mesh_val n' m' (sh0 + kofz d0)%K (sh1 + kofz d1)%K co si i' j' = mesh_val n m sh0 sh1 co si i j.
+Proof.
+  intros H0 H1. unfold mesh_val. rewrite (mesh1_shift n n' i i' d0 sh0 H0), (mesh1_shift m m' j j' d1 sh1 H1).
+  reflexivity.
+Qed.
+
+Theorem mesh_half_turn n m (co si : S) i j :
+  mesh_val n m k0 k0 co si (2 * (n / 2) - i) (2 * (m / 2) - j) =
+  ((- fst (mesh_val n m k0 k0 co si i j))%K, (- snd (mesh_val n m k0 k0 co si i j))%K).
+Proof.
+  unfold mesh_val. cbn [fst snd]. rewrite !mesh1_flip.
+  set (a := mesh1 n i k0). set (b := mesh1 m j k0). unfold rot_r, rot_c. f_equal; ring.
+Qed.
+
+(* ---- spider = 1 - rectangle: range, binarity, translation inside one array ---- *)
+Lemma in01_compl v : in01 v -> in01 (k1 - v)%K.
+Proof.
+  intros [H0 H1]. split.
+  - pose proof (leb_add S leb Hord _ _ (- v)%K H1) as A.
+    replace (v + - v)%K with (@k0 S) in A by ring. replace (k1 + - v)%K with (k1 - v)%K in A by ring. exact A.
+  - pose proof (leb_opp_l _ H0) as A. pose proof (leb_add S leb Hord _ _ k1 A) as B.
+    replace (- v + k1)%K with (k1 - v)%K in B by ring. replace (k0 + k1)%K with (@k1 S) in B by ring. exact B.
+Qed.
+Lemma is01_compl v : is01 v -> is01 (k1 - v)%K.
+Proof. intros [->| ->]; [right | left]; ring. Qed.
+
+Theorem spider_range n m width s2 sh0 sh1 co si aa i j :
+  in01 (spider_val leb n m width s2 sh0 sh1 co si aa i j) /\
+  (aa = false -> is01 (spider_val leb n m width s2 sh0 sh1 co si aa i j)).
+Proof.
+  unfold spider_val. cbv zeta.
+  pose proof (rect_range n m (spider_len n m s2) width (sh0 + - (spider_len n m s2 * khalf) * si)%K
+                (sh1 + spider_len n m s2 * khalf * co)%K co si aa i j) as [A B].
+  split; [apply in01_compl, A | intros E; apply is01_compl, B, E].
+Qed.
+
+Theorem spider_translate n m width s2 sh0 sh1 co si aa i j d0 d1 :
+  spider_val leb n m width s2 (sh0 + kofz d0)%K (sh1 + kofz d1)%K co si aa (i + d0) (j + d1) =
+  spider_val leb n m width s2 sh0 sh1 co si aa i j.
+Proof.
+  unfold spider_val. cbv zeta. f_equal.
+  set (len := spider_len n m s2).
+  replace (sh0 + kofz d0 + - (len * khalf) * si)%K with ((sh0 + - (len * khalf) * si) + kofz d0)%K by ring.
+  replace (sh1 + kofz d1 + len * khalf * co)%K with ((sh1 + len * khalf * co) + kofz d1)%K by ring.
+  apply rect_translate; lia.
+Qed.
+
+(* the spider is the complement of its rectangle: a sample is in the spider mask (value 1, no antialiasing)
+   exactly when it is outside the arm *)
+Theorem spider_is_complement n m width s2 sh0 sh1 co si aa i j :
+  (spider_val leb n m width s2 sh0 sh1 co si aa i j +
+   rect_val leb n m (spider_len n m s2) width (sh0 + - (spider_len n m s2 * khalf) * si)%K
+            (sh1 + spider_len n m s2 * khalf * co)%K co si aa i j = k1)%K.
+Proof. unfold spider_val. cbv zeta. ring. Qed.
+
 (* ---- hexagon: the minimum over the normals depends only on the set of slice values ---- *)
 Lemma leb_kmin x a b : leb x (kmin leb a b) = true <-> leb x a = true /\ leb x b = true.
 Proof.
